@@ -226,6 +226,11 @@ func genRawHostile(g *rand.Rand, tier string) any {
 			c.Kind = 1 + g.IntN(3)
 			c.CSendN = 1
 			c.CProg = rawClientProg(c.Kind)
+			if c.Kind == KCStream && g.IntN(2) == 0 {
+				// what the generated CloseAndRecv does: one RecvMsg, then the caller moves
+				// on without cancelling anything
+				c.CProg = []Op{{K: 's'}, {K: 'c'}, {K: 'h'}, {K: 'r', N: 1}, {K: 't'}}
+			}
 		}
 		p.Calls = append(p.Calls, c)
 	}
